@@ -342,7 +342,16 @@ fn run_batch(rs: &[usize], ds: &[usize], mode: Mode, alone_p: &[Vec<Option<PairR
 // ---- test command: cases inside one test file are isolated
 const TEST_RULES: &str = "let x = a\nrule r { %x == 1 }\nrule s when r { b exists }\nrule t {\n  not r\n}\n";
 fn test_case_yaml(dk: usize) -> String {
-    format!("- name: c{}\n  input: {}\n  expectations:\n    rules:\n      r: PASS\n      s: PASS\n      t: FAIL\n", dk, DOCS[dk])
+    // the cases state different sets of expectations (a rule without an expectation is reported as such, not judged)
+    let exp = ["      r: PASS\n      s: PASS\n      t: FAIL\n", "      r: FAIL\n", "      s: SKIP\n      t: PASS\n"][dk % 3];
+    format!("- name: c{}\n  input: {}\n  expectations:\n    rules:\n{}", dk, DOCS[dk], exp)
+}
+/// the entry of one test case in `test -o json|yaml` output, and the exit code
+fn test_case_structured(r: &str, t: &str, fmt: &str, name: &str) -> (Option<serde_json::Value>, i32) {
+    let o = cli_inproc(&sv(&["test", "-r", r, "-t", t, "-o", fmt]), "");
+    let v: Option<serde_json::Value> = if fmt == "json" { serde_json::from_str(&o.out).ok() } else { serde_yaml::from_str::<serde_yaml::Value>(&o.out).ok().and_then(|y| serde_json::to_value(y).ok()) };
+    let case = v.and_then(|v| v["test_cases"].as_array().and_then(|a| a.iter().find(|c| c["name"] == name).cloned()));
+    (case, o.status())
 }
 /// per test case (by name): the sorted result lines
 fn parse_test_plain(text: &str) -> BTreeMap<String, Vec<String>> {
@@ -437,6 +446,39 @@ pub fn run(tier: &str) -> i32 {
     rep.states += tsel.len() as u64 * 2;
     rep.transitions += tsel.len() as u64 * 2;
     acc = Acc::merge(acc, tr.acc);
+    // the same through the structured reports of the test command: the entry of every case equals the entry it has alone,
+    // and the suite fails exactly when some case alone does
+    let mut alone_ts: Vec<Vec<(Option<serde_json::Value>, i32)>> = vec![];
+    for dk in 0..DOCS.len() {
+        let t = put("c12t/alone.yaml", &test_case_yaml(dk));
+        alone_ts.push(["json", "yaml"].iter().map(|f| test_case_structured(&r, &t, f, &format!("c{}", dk))).collect());
+    }
+    let ts = crate::par::run(tsel.len(), 0, None, Acc::new, |k, acc| {
+        let sel = &tsel[k];
+        let r = put("c12t/t.guard", TEST_RULES);
+        let y: String = sel.iter().map(|d| test_case_yaml(*d)).collect();
+        let t = put("c12t/suite.yaml", &y);
+        for (fi, fmt) in ["json", "yaml"].iter().enumerate() {
+            let mut exit = 0;
+            for d in sel {
+                let (g, st) = test_case_structured(&r, &t, fmt, &format!("c{}", d));
+                exit = st;
+                acc.traces += 1;
+                let w = &alone_ts[*d][fi].0;
+                if g.is_none() || g != *w {
+                    acc.violate("test-case-differs:structured", format!("suite {:?} (-o {}): case c{} is reported as {:?} but as {:?} alone", sel, fmt, d, g.map(|v| v.to_string()), w.as_ref().map(|v| v.to_string())), json!({"kind":"cli","argv":["test","-r","t.guard","-t","suite.yaml","-o",fmt],"stdin":"","files":{"t.guard":TEST_RULES,"suite.yaml":y},"expected":format!("{:?}", w),"observed":"differs"}));
+                }
+            }
+            let want = if sel.iter().any(|d| alone_ts[*d][fi].1 == 7) { 7 } else { 0 };
+            *acc.outcomes.entry(format!("test-structured-exit-{}", exit)).or_insert(0) += 1;
+            if exit != want {
+                acc.violate("test-suite-exit:structured", format!("suite {:?} (-o {}) exits {} but {} is expected from its cases alone", sel, fmt, exit, want), json!({"kind":"cli","argv":["test","-r","t.guard","-t","suite.yaml","-o",fmt],"stdin":"","files":{"t.guard":TEST_RULES,"suite.yaml":y},"expected":format!("exit {}", want),"observed":format!("exit {}", exit)}));
+            }
+        }
+    }, Acc::merge);
+    rep.states += tsel.len() as u64 * 2;
+    rep.transitions += tsel.len() as u64 * 2;
+    acc = Acc::merge(acc, ts.acc);
 
     // ---- --input-parameters with several data files: every data file is merged with the parameters, as when it is given alone
     let prules = "rule rp { zparam == 1 }\nrule ra when zparam exists { a exists }\nrule rb { b == 1 or zother exists }\n";
